@@ -710,6 +710,20 @@ std::vector<std::string> limit_images(int base, int shortLen)
         vals.insert(lim * base * base);
         vals.insert(lim * 2);
         vals.insert(lim * 2 + 1);
+        // the band just beyond the limit, where an overflow check done "by halves" or with a forgotten carry lets
+        // values through (added after seeded breakage c10_u64_overflow_check_by_halves: accepted max+5 ..
+        // max+2^34 in base 10 and stored them modulo 2^64; limit+1, limit*base and limit with one more digit were
+        // all still rejected): every value up to 2*base+2 beyond the limit, (limit/base + k)*base + d, and the
+        // limit plus powers of two up to 2^40
+        i128 const sgn = lim < 0 ? -1 : 1;
+        for (i128 d = 3; d <= 2 * base + 2; ++d) { vals.insert(lim + sgn * d); }
+        for (i128 k = 1; k <= 3; ++k) {
+            for (i128 d : {i128(0), i128(1), i128(base - 1)}) { vals.insert((lim / base + sgn * k) * base + sgn * d); }
+        }
+        for (int sh : {8, 16, 31, 32, 33, 34, 40}) {
+            vals.insert(lim + sgn * (i128(1) << sh));
+            vals.insert(lim + sgn * ((i128(1) << sh) - 1));
+        }
     }
     // the unsigned twin's limits matter for strtoul-style negation and for signed/unsigned mix-ups
     vals.insert(hi * 2 + 1);
